@@ -176,6 +176,14 @@ func StackIfWanted() string {
 	return "\n" + string(debug.Stack())
 }
 
+// IfStack returns s when PQSIM_STACK is set.
+func IfStack(s string) string {
+	if os.Getenv("PQSIM_STACK") == "" {
+		return ""
+	}
+	return s
+}
+
 func panicFrame() string {
 	pcs := make([]uintptr, 64)
 	n := runtime.Callers(3, pcs)
